@@ -42,7 +42,14 @@
                                              → `<ok|panic> <state> steps=ok,panic,… rest=<left|?> ## len= rest=<left>`
     accepts <slice> <n>                      → set=<accepted indexes below n>
     accepts2d rows=<slice> cols=<slice> <R> <C>  → grid=<rows of 0/1>
-    eq_after <op …>                          the operation on a clone, then `matrix == clone` and
+    api display                              `format!("{}")` / `{:.3}` with `\n` → `|`, ` ` → `_`
+    api clone_from                           `Matrix::from_scalar(0).clone_from(&m)` → size and rows
+    api into_tensor <rname> <cname>          into_tensor / TryFrom<(Matrix, [Dimension; 2])> → shape, data | err
+    api matrix_ref <r> <c>                   MatrixRef on Matrix, Box<dyn MatrixRef>, Box<dyn MatrixMut>,
+                                             MatrixView: try_get_reference, view size, layout
+    api iter <entry point> [index]           every iterator entry point → vals=… | panic
+    try_set <r> <c> <v> via=trait|box_dyn    MatrixMut::try_get_reference_mut: write or `none`, no panic
+    eq_after <op …>                          (also Matrix == MatrixView, MatrixView == Matrix, view == view)                          the operation on a clone, then `matrix == clone` and
                                              `clone == matrix` → eq=true|false (read-only)
     scalar                                   → val=<v> | panic         (read-only, &self)
     try_into_scalar                          → ok(<v>) | err           (on a clone)
@@ -298,15 +305,15 @@ def parseCtor (toks : List String) : Option (Matrix.Ctor Nat) :=
   | "row" :: valsS :: _ => (parseNatList valsS).map .row
   | "column" :: valsS :: _ => (parseNatList valsS).map .column
   | "scalar" :: v :: _ => v.toNat?.map .fromScalar
-  | ["empty", rS, cS, vS] =>
+  | "empty" :: rS :: cS :: vS :: _ =>
     match rS.toNat?, cS.toNat?, vS.toNat? with
     | some r, some c, some v => some (.empty v r c)
     | _, _, _ => none
-  | ["diagonal", rS, cS, vS] =>
+  | "diagonal" :: rS :: cS :: vS :: _ =>
     match rS.toNat?, cS.toNat?, vS.toNat? with
     | some r, some c, some v => some (.diagonal 0 v r c)
     | _, _, _ => none
-  | ["from_diagonal", valsS] => (parseNatList valsS).map (.fromDiagonal 0)
+  | "from_diagonal" :: valsS :: _ => (parseNatList valsS).map (.fromDiagonal 0)
   | _ => none
 
 def step (s : State) (toks : List String) : State × String :=
@@ -352,6 +359,64 @@ def step (s : State) (toks : List String) : State × String :=
         | .ok none => "err"
         | .panic k => s!"panic ## kind={k}"
       (s, if model = spec then model else s!"{spec} ## MODEL-SPEC-DISAGREE {model}")
+  | "api" :: what :: rest =>
+    match s with
+    | none => (s, "no-matrix")
+    | some st =>
+      let rs := st.rs
+      let okRows := decide (st.m.toRows = rs)
+      let guard (a : String) := if okRows then a else s!"{a} ## MODEL-SPEC-DISAGREE {showModel st.m}"
+      match what, rest with
+      | "display", _ =>
+        let body := "|__".intercalate (rs.map fun r => ",_".intercalate (r.map toString))
+        (s, guard s!"text=[_{body}_]")
+      | "clone_from", _ => (s, guard (showSpec rs))
+      | "into_tensor", rn :: cn :: _ =>
+        let spec := if rn = cn then "err"
+          else s!"shape={rn}:{Rows.nrows rs},{cn}:{Rows.ncols rs} data={showNats rs.flatten}"
+        let model := match st.m.intoTensorRows rn cn with
+          | .ok (some t) => s!"shape={showShape t.shape} data={showNats t.data}"
+          | .ok none => "err"
+          | .panic k => s!"panic({k})"
+        (s, if spec = model then guard spec else s!"{spec} ## MODEL-SPEC-DISAGREE {model}")
+      | "matrix_ref", r :: c :: _ =>
+        match r.toNat?, c.toNat? with
+        | some r, some c =>
+          let cellS := match Rows.cell rs r c with
+            | some v => s!"some({v})"
+            | none => "none"
+          let modelS := match st.m.tryGet r c with
+            | some v => s!"some({v})"
+            | none => "none"
+          let a := s!"get={cellS} size={Rows.nrows rs}x{Rows.ncols rs} layout=row_major"
+          (s, if cellS = modelS then guard a else s!"{a} ## MODEL-SPEC-DISAGREE get={modelS}")
+        | _, _ => (s, "bad-op")
+      | "iter", name :: args =>
+        let idx := (args.head?.bind String.toNat?).getD 0
+        let rowMajor : Outcome (List Nat) := .ok rs.flatten
+        let colMajor : Outcome (List Nat) := .ok (Rows.transpose rs).flatten
+        let (spec, model) : Outcome (List Nat) × Outcome (List Nat) :=
+          if name.startsWith "row_major" then (rowMajor, .ok st.m.toRows.flatten)
+          else if name.startsWith "column_major" then (colMajor, .ok (Rows.transpose st.m.toRows).flatten)
+          else if name.startsWith "diagonal" then (.ok (Rows.diagonal rs), st.m.diagonalIter)
+          else if name.startsWith "row_" then (Rows.rowAt rs idx, st.m.rowIter idx)
+          else (Rows.columnAt rs idx, st.m.columnIter idx)
+        (s, showListQuery spec model)
+      | _, _ => (s, "bad-op")
+  | "try_set" :: r :: c :: v :: _ =>
+    match s, r.toNat?, c.toNat?, v.toNat? with
+    | none, _, _, _ => (s, "no-matrix")
+    | some st, some r, some c, some v =>
+      let op : Matrix.Op Nat := .set r c v
+      -- model: `Matrix.trySet` (MatrixMut::try_get_reference_mut); spec: a write inside, `none` outside
+      match Matrix.trySet st.m r c v, Rows.pre st.rs op with
+      | some m', true =>
+        let rs' := Rows.next st.rs op
+        (some ⟨m', rs'⟩, "some " ++ answer false rs' ⟨m', none⟩)
+      | none, false => (s, "none " ++ answer false st.rs ⟨st.m, none⟩)
+      | some m', false => (s, s!"none ## MODEL-SPEC-DISAGREE some {showModel m'}")
+      | none, true => (s, "some ## MODEL-SPEC-DISAGREE none")
+    | _, _, _, _ => (s, "bad-op")
   | "accepts" :: sl :: nS :: _ =>
     match parseSlice sl.toList, nS.toNat? with
     | some sl, some n =>
